@@ -125,7 +125,9 @@ def sim_cases(draw):
             'sock_timeout': draw(st.sampled_from([None, 0.0, 2.5])),
             'eintr': draw(st.integers(0, 5)) == 0,
             # unicode mode: the peer's writes (and the reads) cut the UTF-8 stream at arbitrary bytes
-            'enc': draw(st.sampled_from([None, None, 'utf-8']))}
+            'enc': draw(st.sampled_from([None, None, 'utf-8'])),
+            # the object's maxread, when it differs from the size asked of read_nonblocking (None: the same)
+            'maxread': draw(st.sampled_from([None, None, 2000, 65536]))}
 
 
 def materialise(case):
@@ -153,7 +155,9 @@ def check_sim(case, col=None):
         with sim.installed():
             enc = case.get('enc')
             ekw = {'encoding': enc} if enc else {}
-            sp = simkernel.make_reader(sim, use_poll=case['use_poll'], timeout=T, maxread=size, **ekw)
+            style = case['style']
+            sp = simkernel.make_reader(sim, use_poll=case['use_poll'], timeout=T,
+                                       maxread=(max(size, case['maxread']) if case.get('maxread') and style == 'rnb' else size), **ekw)
             sp.delayafterread = None
             if case['kind'] == 'socket':
                 sim.sock_proxy._timeout = case['sock_timeout']
